@@ -49,11 +49,15 @@ def definitions():
 
 
 def new_name(kind, name):
+    # an identifier that does not contain the old one (rules matching a substring of a name would otherwise not notice)
+    h = hashlib.md5(name.encode()).hexdigest()[:7]
+    if os.environ.get("ZV_RENAME_SUFFIX") == "1":
+        return name + ("Rn" if kind in ("struct", "enum", "variant") else "_RN" if kind == "const" else "_rn")
     if kind in ("struct", "enum", "variant"):
-        return name + "Rn"
+        return "Q" + h
     if kind == "const":
-        return name + "_RN"
-    return name + "_rn"
+        return "Q_" + h.upper()
+    return "q_" + h
 
 
 def apply_rename(name, new):
